@@ -96,6 +96,7 @@ struct Context {
     ss_ptr: usize,
     di_len: usize,
     rl_len: usize,
+    so_len: usize,
     ip: usize,
     mode: ContextMode,
 }
@@ -596,6 +597,7 @@ impl State {
             ss_ptr: self.special.len(),
             di_len: self.dict.len(),
             rl_len: self.reverse_log.as_ref().map_or(0, |log| log.len()),
+            so_len: self.sources.len(),
             ip: self.code_origin(),
             mode,
         };
@@ -631,9 +633,11 @@ impl State {
             }
         } else if self.ctx.mode == ContextMode::MetaEval {
             self.run()?;
-            // purge meta context code after evaluation
+            // purge meta context code after evaluation, and the record of the files
+            // it was read from: a later `require` has to read them again
             self.code.truncate(self.ctx.cs_len);
             self.debug_map.truncate(self.ctx.cs_len);
+            self.sources.truncate(self.ctx.so_len);
             // remove non-constant words
             let mut i = self.ctx.di_len;
             while i < self.dict.len() {
